@@ -41,7 +41,12 @@ type Prop struct {
 	// violation (non-termination is what the property forbids) instead of
 	// inconclusive.
 	StallIsViolation bool
-	Run              func(c *Ctx)
+	// FuzzTarget names a native Go fuzz function in package props that the driver runs after the enumerated
+	// stage (coverage-guided mutation of the same entry points); FuzzExecs gives the execution counts.
+	FuzzTarget        string
+	FuzzExecsQuick    int
+	FuzzExecsThorough int
+	Run               func(c *Ctx)
 }
 
 var registry = map[string]*Prop{}
@@ -247,6 +252,27 @@ func (c *Ctx) Violation(key, what string, detail map[string]any) {
 
 func (c *Ctx) Violationf(key string, detail map[string]any, f string, a ...any) {
 	c.Violation(key, fmt.Sprintf(f, a...), detail)
+}
+
+// ViolationCount and LastViolation let a fuzz test turn recorded violations into test failures.
+func (c *Ctx) ViolationCount() int {
+	c.mu.Lock()
+	defer c.mu.Unlock()
+	n := 0
+	for _, v := range c.violKeys {
+		n += v
+	}
+	return n
+}
+
+func (c *Ctx) LastViolation() string {
+	c.mu.Lock()
+	defer c.mu.Unlock()
+	if len(c.viol) == 0 {
+		return ""
+	}
+	v := c.viol[len(c.viol)-1]
+	return v.Key + ": " + v.What
 }
 
 func (c *Ctx) result() *Result {
